@@ -19,6 +19,7 @@ func init() {
 			Explanation: "Structural necessary conditions of 'at most one invocation in flight, extra callers refused harmlessly', decided on every path of the anchored functions: the reservation is a test-and-set under the server mutex (store dominated by 'invokeCtx == nil', refusal returns ErrAlreadyReserved having stored nothing); the reservation is cleared only by Release and created only by setNewInvokeContext; " +
 				"no result of a failing call is used on its own error path anywhere in rapidcore, rapid and the front end (the nil-dereference pattern that crashed the emulator for a second caller); the refused caller's path in Server.Invoke performs no Release/Reset/FastInvoke/Shutdown and reports the error; Release in Invoke is confined to the success case; a reset clears the server state only after the sandbox reset returned and answers the failed caller only after the reset; " +
 				"the front end maps ErrAlreadyReserved to 400 and serialises its first-call initialisation under a mutex that is not held across the invocation. " +
+				"Added after the blind rounds: AwaitRelease frees the reservation only on success; test and set under one acquisition of the mutex; one critical section per call; R-ERRID for the refusal statuses. " +
 				"NOT decided: the arrival-time quantifier itself ('immediately', every phase), i.e. no interleaving is explored.",
 			RuleText:    "one obligation per guard, per store, per (call site x error-use pattern), per select case, per front-end status branch",
 			Assumptions: trusted,
@@ -110,7 +111,10 @@ func checkReservation(c *report.Ctx) {
 		calls := an.CallsTo(rs, srvT+".setNewInvokeContext")
 		ok := len(calls) == 1
 		if ok {
-			errv := func(v ssa.Value) bool { cl, idx := an.CallOf(v); return cl != nil && ssa.Instruction(cl) == ssa.Instruction(calls[0]) && idx == 1 }
+			errv := func(v ssa.Value) bool {
+				cl, idx := an.CallOf(v)
+				return cl != nil && ssa.Instruction(cl) == ssa.Instruction(calls[0]) && idx == 1
+			}
 			// stores to Server fields / calls to initContext.Reserve only on the nil edge
 			an.AllInstrs(rs, func(in ssa.Instruction) {
 				isEff := false
@@ -549,7 +553,9 @@ func noteErrUseOutside(c *report.Ctx, f *ssa.Function, nilOnError func(*ssa.Func
 			}
 			for _, r2 := range *ex.Referrers() {
 				if cc, ok := r2.(ssa.CallInstruction); ok && cc.Common().IsInvoke() && cc.Common().Value == ssa.Value(ex) {
-					known := facts.Holds(r2.Block(), func(ft an.Fact) bool { return an.CmpNil(ft, true, func(v ssa.Value) bool { e2, k := v.(*ssa.Extract); return k && e2.Tuple == call && e2.Index == 1 }) })
+					known := facts.Holds(r2.Block(), func(ft an.Fact) bool {
+						return an.CmpNil(ft, true, func(v ssa.Value) bool { e2, k := v.(*ssa.Extract); return k && e2.Tuple == call && e2.Index == 1 })
+					})
 					if !known {
 						c.Note("observation (start-up code, outside service-time scope): %s uses the result of %s at %s without knowing the call succeeded", an.FuncName(f), an.FuncName(callee), c.P.Pos(an.InstrPos(r2)))
 					}
